@@ -1054,7 +1054,12 @@ def _check_training_set(w, g, Xl, Yl, Sl, ref, len_scale, n_min, n_max, optim_st
         return np.sum(((np.asarray(A, dtype=float) - ref[None, :]) / ls) ** 2, axis=1)
     dist = d2(Xl)
     dsel = d2(gX)
-    slack = 1e-9 * max(float(np.max(dsel)) if n else 0.0, 1e-300)
+    # tolerance: 1e-9 relative, plus the rounding of the length-scaled coordinates themselves (a/l and b/l carry a
+    # relative error of eps each, so a distance computed from them is only defined up to ~eps*|a/l|*d): matters when
+    # the length scale has shrunk to ~1e-8 of the coordinates (deep convergence), is negligible otherwise
+    dmax_ = float(np.max(dsel)) if n else 0.0
+    mmax_ = float(max(np.max(np.abs(Xl / ls)) if n_logged else 0.0, np.max(np.abs(ref / ls))))
+    slack = 1e-9 * max(dmax_, 1e-300) + 16 * np.finfo(float).eps * np.sqrt(max(dmax_, 0.0)) * mmax_ * np.sqrt(Xl.shape[1])
     if n > 1 and np.any(np.diff(dsel) < -slack):
         w.violate("C15", "train-not-ordered", "GP training set is not ordered by distance from the reference point",
                   worst=float(np.min(np.diff(dsel))), dmax=float(np.max(dsel)))
